@@ -613,6 +613,11 @@ class LifetimeV:
     def __init__(self, name):
         self.name = name
 
+    def get_field(self, e, i):
+        # syn::Lifetime { apostrophe: Span, ident: Ident }
+        from models import IdentV
+        return [Opq('Span', 'lt'), IdentV(self.name[1:], Opq('Span', 'id:' + self.name[1:]), 'user')][i]
+
     def clone(self):
         return self
 
